@@ -107,4 +107,48 @@ Proof.
     cbn [rev]. rewrite existsb_app. cbn [existsb]. rewrite (IH H2), H1. reflexivity.
 Qed.
 
+
+(* P2WSH m-of-n: empty scriptSig, witness  <> <sig_1> ... <sig_m> <witness script>  *)
+Theorem p2wsh_multisig_complete m keys sigs ws :
+  1 <= m <= 16 -> 1 <= zlen keys <= 16 -> zlen sigs = m -> nonempty_sigs sigs = true ->
+  length (sha256 ws) = 32%nat ->
+  parse_cmds ws = Ok (multisig_script m keys) ->
+  so_multisig so (rev keys) (rev sigs) = Ok true ->
+  verify_input C ripemd160 sha1 sha256 hash160 hash256 so c ([] :: sigs ++ [ws])
+    [] (p2wsh_script (sha256 ws)) = OTrue.
+Proof.
+  intros Hm Hn Hs Hne Hl Hp Hok. unfold verify_input, p2wsh_script.
+  cbn [is_p2wpkh is_p2wsh]. rewrite Hl. cbn [Nat.eqb orb app]. unfold evaluate_full.
+  set (w := [] :: sigs ++ [ws]).
+  assert (exists k, fuel_for w [Op 0; Push (sha256 ws)] = (2 + (length ([] :: sigs) + (length keys + (3 + k))))%nat) as [k ->].
+  { assert (length keys <= 16)%nat by (unfold zlen in Hn; lia).
+    unfold fuel_for. cbn [total_size fold_right push_size].
+    assert (length sigs + 2 <= witness_size w)%nat as Hw.
+    { unfold w, witness_size. cbn [fold_right length]. clear.
+      induction sigs as [|x l IH]; cbn [app fold_right length]; lia. }
+    exists (2 * (1 + (S (length (sha256 ws)) + 0)) + 2 * witness_size w + 64
+            - (2 + (length ([] :: sigs) + (length keys + 3))))%nat. cbn [length]. lia. }
+  cbn [plus]. rewrite vloop_op_step. cbn [f_tap]. unfold exec_op.
+  change (table false 0) with (Some (FStack (op_push_num 0))).
+  cbv iota beta. cbn [op_push_num bind]. change (encode_num 0) with (@nil Z).
+  rewrite vloop_push_step.
+  unfold after_push, p2sh_rule. cbn [bind f_wit f_p2sh f_tap witness_rule negb]. rewrite Hl. cbn [Nat.eqb].
+  assert (last w [] = ws) as Hlast.
+  { unfold w. change ([] :: sigs ++ [ws]) with (([] :: sigs) ++ [ws]). apply last_last. }
+  assert (removelast w = [] :: sigs) as Hrl.
+  { unfold w. change ([] :: sigs ++ [ws]) with (([] :: sigs) ++ [ws]). apply removelast_last. }
+  unfold w at 1. cbv iota beta. fold w. rewrite Hlast, Hrl, beq_refl, Hp. cbn [bind app].
+  change {| f_p2sh := false; f_wit := false; f_tap := false |} with (fl_off false).
+  change (Push [] :: map Push sigs ++ multisig_script m keys) with (map Push ([] :: sigs) ++ multisig_script m keys).
+  change (S (length sigs)) with (length ([] :: sigs)).
+  rewrite vloop_pushes.
+  cbn [rev]. rewrite <- app_assoc. cbn [app].
+  apply multisig_suffix_complete; auto.
+  - unfold zlen in *. now rewrite rev_length.
+  - unfold nonempty_sigs in *. rewrite negb_true_iff in *.
+    clear -Hne. induction sigs as [|x l IH]; [reflexivity|].
+    cbn [existsb] in Hne. apply orb_false_iff in Hne as [H1 H2].
+    cbn [rev]. rewrite existsb_app. cbn [existsb]. rewrite (IH H2), H1. reflexivity.
+Qed.
+
 End Complete.
